@@ -20,7 +20,9 @@ EXPLANATION = (
     "the documented cover skip, and the ignore set is built as source/sink edges + translated user ignore list; (R3) every class "
     "taking error_scaling unions {e : scale(e) == 0} into the ignore set before the base constructor and the encoders run; (R4) "
     "the synthetic source edge is added iff in_degree == 0 or the node is a declared start, the sink edge iff out_degree == 0 or the "
-    "node is a declared end (boolean normal form); (R5) the greedy solution is rejected unless every constraint reaches its coverage. "
+    "node is a declared end (boolean normal form); (R5) the greedy solution is rejected unless every constraint reaches its coverage; (R6) constraint edges enter the "
+    "trusted-for-safety set only under a test implying coverage == 1 (with partial coverage they need not be in a solution), and the caller's "
+    "ignore / constraint / start-end lists are never written. "
     "NOT decided: that the optimum is taken over exactly the constrained solutions; 'and nothing else' for ignored elements."
 )
 DECIDED = ["constraint families present and complete", "ignoring is the only way an edge is skipped", "scale 0 implies ignored",
@@ -263,3 +265,7 @@ def check(prog: Program, rep):
     augmentation_guards(prog, rep, "C10.R4")
     rep.rule("C10.R5", "greedy rejection on unmet constraints", floor=2)
     greedy_rejection(prog, rep, "C10.R5")
+    rep.rule("C10.R6", "constraint edges are trusted for safety only under full coverage; ignore lists are never written", floor=10)
+    semantic.trusted_edge_providers(prog, rep, "C10.R6")
+    from rules.c18 import class_inputs_not_mutated
+    class_inputs_not_mutated(prog, rep, "C10.R6", K_MODELS, params=("elements_to_ignore", "subpath_constraints", "subset_constraints", "additional_starts", "additional_ends"))
